@@ -323,6 +323,33 @@ def gen_streams(ctx, judge, sizes):
     for ci, pre in enumerate(CONTEXTS):
         stream(ctx, judge, "seq_ctx", exhaustive(L1, prefix=pre, suffixes=((), ("close",), ("close", "close"))))
     ctx.count("seq_ctx_maxlen", L1)
+    # 2b. ghost stress: every short body over {`{}`, `{`, `}`, `=`, id, i32, quoted} inside `id = { ... }` --
+    #     clusters of empty containers next to '=' are where the "only empties" / mixed-container code lives.
+    #     Independent oracle: an accepted tape keeps every container except empty `{}` pairs (ghosts).
+    import itertools
+    ALPH = [("open", "close"), ("open",), ("close",), ("equal",), ("id",), ("i32",), ("quoted",)]
+    gl = 5 if L0 <= 4 else 6
+    gcases, gmeta = [], []
+    for L in range(1, gl + 1):
+        for combo in itertools.product(ALPH, repeat=L):
+            kinds = ("id", "equal", "open") + tuple(k for part in combo for k in part) + ("close",)
+            gcases.append("bt.all\t" + hexs(enc_seq(kinds)))
+            n_open = kinds.count("open")
+            n_ghost = sum(1 for i in range(len(kinds) - 1) if kinds[i] == "open" and kinds[i + 1] == "close")
+            gmeta.append(n_open - n_ghost)
+    impl, model = ctx.correspond("ghost_stress", gcases, nontrivial=nontrivial)
+    judge.check(gcases, impl, model, "ghost_stress")
+    gb = len(impl) - len(gcases)
+    for k, need_c in enumerate(gmeta):
+        sp = split_all(impl[gb + k])
+        if not sp:
+            continue
+        for which, res in (("optimised", sp[0]), ("reference", sp[1])):
+            if res.startswith("OK"):
+                have = sum(1 for t in res.split(" ")[1:] if t[:2] in ("A:", "O:"))
+                if have < need_c:
+                    judge.add("container-dropped", "%s parser accepted the input but its tape has %d containers where the token stream opens %d non-empty ones" % (which, have, need_c), gcases[k], impl[gb + k], ">= %d containers" % need_c)
+    ctx.count("ghost_stress_maxlen", gl)
     # 3. documents with an independent expected tape
     docs = [gen_doc(rng) for _ in range(ndocs)]
     cases = ["bt.all\t" + hexs(b) for b, _ in docs]
